@@ -229,11 +229,9 @@ int main(int argc, char **argv) {
     mode = !strcmp(A.mode, "c03") ? 3 : !strcmp(A.mode, "c09") ? 9 : !strcmp(A.mode, "c19p") ? 19 : 2;
     vf_world_init(A.mtu, A.wifi, (uint8_t)A.fill);
     IFX = (mode == 2 || mode == 3) && A.b == 1;
+    if (IFX) W.iface[0].mtu = A.mtu >= 1500 ? 576 : 9216;       /* the interface that saw traffic first has another MTU: frame sizes on this one must follow its own */
     if (IFX) { W.iface[1].flags = 0x0800; W.iface[1].iftype = 71; W.iface[1].speed = 540000; W.iface[1].wifi = !A.wifi; memcpy(W.iface[1].ssid, "second", 6); W.iface[1].ssid_len = 6; }
-    if ((mode == 2 || mode == 3) && A.a == 2) {      /* platform with a machine name longer than the Hello property may carry */
-        static const char longname[] = "a-rather-long-machine-name-of-fifty-one-characters.";
-        memcpy(W.host.hostname, longname, sizeof longname - 1); W.host.hostname_len = sizeof longname - 1;
-    }
+    if ((mode == 2 || mode == 3) && A.a == 2) vf_rich_platform();      /* machine name longer than the Hello property may carry, 32-byte SSID, 64-byte hardware ID */
     int small = (mode == 9 && A.a == 1);
     NEV = sigma_build(EV, 1024, mode == 3 ? SIGMA_DISC : small ? SIGMA_SMALL : SIGMA_P);
     NCV = sigma_build(CV, 1024, small ? SIGMA_SMALL : SIGMA_P);
